@@ -340,7 +340,16 @@ def specs(tier):
 
     # the position range rests on every terminal staying inside the input; the one terminal that advances by a length
     # it does not read back from the match is ^"v": its contract and the regex assumptions behind it are re-proved here
-    from . import c13_render
+    from . import c13_render, templates
+
+    # "the names it lists are rules of the grammar or built-ins": the optimizer's synthetic SKIP rule is tried with failure
+    # recording suppressed, in the interpreter and in emitted code (the clause is generated by the C04 contracts of
+    # parse_trivia; kept here alone) - refuted on the pinned tree, repaired in /repo dbe98c8
+    skip_specs = [ops.ParseTriviaSpec(True, False, False), *[t for t in templates.trivia_templates() if "skip=1,ws=0,cm=0" in t.label]]
+    for sp in skip_specs:
+        sp.keep_clauses = r"^trivia\.synthetic_rule"
+        sp.label = f"{sp.label or sp.target}[names]"
+    out = [*out, *skip_specs]
 
     return [*out, PStateInit(), ErrorContext(), ErrorContextSentinel(), ops.CIStringSpec(), c12.CIStrings(), *c13_render.specs(tier)]
 
